@@ -93,6 +93,7 @@ type Op struct {
 	Host    string    `json:"host"`
 	Hdr     SMap      `json:"hdr"`
 	Fault   string    `json:"fault"`
+	Faults  SMap      `json:"faults"`
 	Val     string    `json:"val"`
 	Cfg     *Cfg      `json:"cfg"`
 	M       json.RawMessage `json:"m"` // matcher expression
@@ -109,6 +110,7 @@ type Case struct {
 	Fam     string `json:"fam"`
 	Cfg     Cfg    `json:"cfg"`
 	Ops     []Op   `json:"ops"`
+	Keys    []string `json:"keys"` // params family: keys observed after every op
 	Reqs    []Op   `json:"reqs"` // requests executed after the ops (TLC prints them as a set)
 	Battery string `json:"battery"` // last | every | none
 	Base    bool   `json:"base"`    // battery "last": also take a silent baseline before a final Handle (C17)
@@ -299,13 +301,16 @@ func (e *env) call(w http.ResponseWriter, r *http.Request, rt types.Route, h *H)
 		h = h.next
 	}
 	o.kind, o.h = h.kind, h.id
+	if o.kind == "gnf" && o.rname != "" { // a router made by Group.New answers 404 with the group's not-found value
+		o.kind = "404"
+	}
 	rt.Params().Range(func(k, v string) { o.params[k] = v })
 	if n := rt.Node(); n != nil {
 		o.hasNode = true
 		o.pat = n.Pattern()
 		o.allowN = append([]string{}, n.Methods()...)
 	}
-	e.maybePanic("h:" + h.kind)
+	e.maybePanic("h:" + o.kind)
 	switch h.kind {
 	case "405", "opt":
 		a := h.node.AllowHeader()
